@@ -338,8 +338,12 @@ def known_findings(prop):
 class Stream:
     """one correspondence stream: a list of operation lines (each op is one line, or a whole
     history when `history` is true: then the ops of one file depend on each other)"""
-    def __init__(self, name, ops, history=False, note="", module=None, harness=None, lib=None, wraps=None, oracle=None):
+    def __init__(self, name, ops, history=False, note="", module=None, harness=None, lib=None, wraps=None, oracle=None,
+                 nomodel=False):
         self.name, self.ops, self.history, self.note = name, ops, history, note
+        # nomodel: implementation-vs-oracle only (inputs too large for the list-based Lean model);
+        # such streams validate the code against the property's oracle, not the model against the code
+        self.nomodel = nomodel
         # a stream may bring its own model module / harness / library variant / oracle
         # (checks that span several containers: C11, C12, C15)
         self.module, self.harness, self.lib, self.wraps, self.oracle = module, harness, lib, wraps, oracle
@@ -468,7 +472,7 @@ class Check:
     def run_stream(self, st, have_driver):
         text = "\n".join(st.ops) + "\n"
         hbin = self.stream_bin(st)
-        module = st.module or self.module
+        module = None if st.nomodel else (st.module or self.module)
         judge_history = st.oracle or self.judge_history
         impl, rc, err = run_proc([hbin], text)
         info = {"ops": len(st.ops), "impl_rc": rc}
@@ -523,7 +527,7 @@ class Check:
         ops = st.ops[:idx + 1]
 
         hbin = self.stream_bin(st)
-        module = st.module or self.module
+        module = None if st.nomodel else (st.module or self.module)
 
         def fails(cand):
             text = "\n".join(cand) + "\n"
